@@ -156,8 +156,11 @@ def c0Expected (b : Int) : Key :=
   else if b = 27 then { keycode := KeyEsc }
   else { keycode := (if 1 ≤ b ∧ b ≤ 26 then 96 + b else 64 + b), mods := ctrlBit }
 
-/-- ESC-prefixed character: Alt + that character. -/
-def escExpected (final : Int) : Key := { keycode := final, mods := altBit }
+/-- ESC-prefixed character: Alt + that character; an upper-case letter is Alt + Shift + its
+    lower-case, exactly as the unprefixed letter is Shift + its lower-case. -/
+def escExpected (u : Uni) (final : Int) : Key :=
+  if u.isUpper final then { keycode := u.toLower final, shifted := final, mods := altBit ||| shiftBit }
+  else { keycode := final, mods := altBit }
 
 /-- Keys a user can press: a character key (code point ≥ 32; 127 is BackSpace), Tab / Enter / Escape,
     or one of the named function-key constants. -/
